@@ -230,13 +230,23 @@ pub fn run(tier: Tier) -> i32 {
     // work list: (kind index, form, base, d)
     let mut work: Vec<(usize, Form, usize, i64)> = vec![];
     for (ki, k) in kinds.iter().enumerate() {
-        let ds: Vec<i64> = if k.hi == 63 {
+        let mut ds: Vec<i64> = if k.hi == 63 {
             (-70..=70).collect()
         } else if tier.thorough() {
             (-2100..=2100).collect()
         } else {
             (-2056..=-2040).chain(-8..=8).chain(2040..=2056).collect()
         };
+        // far targets: distances at which a narrower integer or the field itself would wrap
+        // around to an in-range value (2^7, 2^8, 2^12, 2^13, 2^15, 2^16, 2^17, 2^21, 2^22 +-1)
+        for p in [7u32, 8, 12, 13, 15, 16, 17, 21, 22] {
+            for delta in [-2i64, -1, 0, 1, 2] {
+                ds.push((1i64 << p) + delta);
+                ds.push(-(1i64 << p) + delta);
+            }
+        }
+        ds.sort_unstable();
+        ds.dedup();
         for f in forms {
             for base in 0..4 {
                 for d in ds.iter() {
@@ -371,6 +381,7 @@ pub fn run(tier: Tier) -> i32 {
     let coverage = cov(json!({
         "evaluations": evals.load(Ordering::Relaxed),
         "distinct_nontrivial": distinct_cases.load(Ordering::Relaxed),
+        "far_distances": "2^p + {-2..2}, p in 7,8,12,13,15,16,17,21,22, both signs",
         "rule": "36 instruction kinds (18 named branches, brbs/brbc x 8 flags, rjmp, rcall) x 4 target forms (forward label, backward label, pc-relative, absolute) x 4 base placements x every distance in the windows (branches -70..70; rjmp/rcall -2056..-2040,-8..8,2040..2056 quick / -2100..2100 thorough) x rotating filler sequences (all 1555 sequences of <=4 items over nop, jmp, .dw, odd .db, 3-byte .db, .org gap are used); distinct_nontrivial = distinct constructible (kind, form, base, distance) combinations",
         "exhaustive": true,
         "filler_sequences_used": used,
